@@ -302,7 +302,29 @@ def run_exec_case(item):
     ret = bools_ty(nb)
     fparams = ", ".join([f"q{i}: qubit" for i in range(nq)] + [f"f{i}: float" for i in range(ns)])
     args = ", ".join([f"q{i}" for i in range(nq)] + [f"angle(f{i})" for i in range(ns)])
-    if mode == "load":
+    arrays = mode == "load-arrays"
+    if arrays:
+        # use_arrays=True (the default): one array per quantum register in lexicographic register order, the
+        # symbols as one array, one bool array per classical register
+        regs = sorted(qregs)
+        aparams = [f"{n}: array[qubit, {sz}]" for n, sz in regs] + [f"f{i}: float" for i in range(ns)]
+        aargs = [n for n, _ in regs] + ([f"array({', '.join(f'angle(f{i})' for i in range(ns))})"] if ns else [])
+        rets = [f"array[bool, {sz}]" for _, sz in sorted(spec[2])] if measured else []
+        aret = "None" if not rets else rets[0] if len(rets) == 1 else "tuple[" + ", ".join(rets) + "]"
+        src += ("loaded = guppy.load_pytket('loaded', circ)\n"
+                f"@guppy\ndef main({', '.join(aparams)}) -> {aret}:\n    return loaded({', '.join(aargs)})\n")
+    elif mode == "reload-after-edit":
+        # the SAME Circuit object is loaded and compiled, then extended, then loaded again under another name:
+        # the second function must act like the extended circuit
+        first_q = f"_q_{qregs[0][0]}[0]"
+        last_q = f"_q_{qregs[-1][0]}[{qregs[-1][1] - 1}]"
+        src += ("stage1 = guppy.load_pytket('stage1', circ, use_arrays=False)\n"
+                f"@guppy\ndef main1({fparams}) -> {ret}:\n    return stage1({args})\n"
+                "main1.compile_function()\n"
+                f"circ.Ry(0.45, {first_q})\n" + (f"circ.CX({last_q}, {first_q})\n" if nq > 1 else f"circ.Rx(0.35, {first_q})\n") +
+                "loaded = guppy.load_pytket('loaded', circ, use_arrays=False)\n"
+                f"@guppy\ndef main({fparams}) -> {ret}:\n    return loaded({args})\n")
+    elif mode == "load":
         src += ("loaded = guppy.load_pytket('loaded', circ, use_arrays=False)\n"
                 f"@guppy\ndef main({fparams}) -> {ret}:\n    return loaded({args})\n")
     else:
@@ -323,8 +345,15 @@ def run_exec_case(item):
         m = hugrvm.Machine(h, hugrvm.Chooser())
         qsv = [m.q.alloc() for _ in range(nq)]
         m.events.clear()
+        call_args = qsv + [float(v) for v in values]
+        if arrays:
+            call_args, pos = [], 0
+            for _n, sz in sorted(qregs):
+                call_args.append(hugrvm.Arr(qsv[pos:pos + sz]))
+                pos += sz
+            call_args += [float(v) for v in values]
         try:
-            vals = m.call("main", qsv + [float(v) for v in values])
+            vals = m.call("main", call_args)
         except (hugrvm.VMUnsupported, hugrvm.VMInvariant, hugrvm.VMBudget) as e:
             return {"harness": f"{type(e).__name__}: {e}"}
         if not measured:
@@ -348,9 +377,17 @@ def run_exec_case(item):
             elif nm == "Measure":
                 bit_of[cmd.bits[0]] = state[cmd.qubits[0]]
         want_bits = [bool(bit_of[b]) for b in sorted(circ.bits)]
-        got_bits = [bool(v.tag) if isinstance(v, hugrvm.Sum) else bool(v) for v in vals[:nb]]
-        if nb and isinstance(vals[0], hugrvm.Sum) and vals[0].vals:
-            got_bits = [bool(x) if not isinstance(x, hugrvm.Sum) else bool(x.tag) for x in vals[0].vals]
+        def _b(x):
+            return bool(x.tag) if isinstance(x, hugrvm.Sum) else bool(x)
+        if arrays:
+            outs = [v for v in vals if isinstance(v, hugrvm.Arr)]
+            if len(outs) < len(spec[2]) and vals and isinstance(vals[0], hugrvm.Sum):
+                outs = [v for v in vals[0].vals if isinstance(v, hugrvm.Arr)]
+            got_bits = [_b(x) for a in outs[:len(spec[2])] for x in a.slots]
+        else:
+            got_bits = [_b(v) for v in vals[:nb]]
+            if nb and isinstance(vals[0], hugrvm.Sum) and vals[0].vals:
+                got_bits = [_b(x) for x in vals[0].vals]
         if got_bits != want_bits:
             return {"bad": f"returned bits {got_bits} but the circuit's classical bits (lexicographic order) are {want_bits} "
                            f"(qregs={qregs}, cregs={cregs})", "cls": "wrong-bits"}
@@ -363,7 +400,8 @@ def run_exec_case(item):
 def part_exec(ctx):
     """Execution-based half of C26: the compiled wrapper is run by hugrvm and compared with
     pytket's own statevector (unitary family) / classical evaluation (measured family)."""
-    items = [(ci, meas, mode) for ci in range(len(circuits())) for meas in (False, True) for mode in ("load", "stub")]
+    items = [(ci, meas, mode) for ci in range(len(circuits())) for meas in (False, True) for mode in ("load", "stub", "load-arrays", "reload-after-edit")
+             if not (meas and mode == "reload-after-edit")]
     res = ctx.pmap(run_exec_case, items, chunk=4)
     ok = 0
     for it, r in zip(items, res):
